@@ -1,6 +1,7 @@
 import RTA.Lemmas.FpSound
 import RTA.Lemmas.FpSoundEq
 import RTA.Lemmas.FpSoundEqExample
+import RTA.Lemmas.FpSoundCompliant
 /-! # C01 — the fixed-priority RTAs are safe for every legal schedule
 
 Spec: `RTA/Spec/Sched.lean` — discrete-time schedules on a dedicated unit-speed processor;
@@ -137,5 +138,67 @@ theorem equal_priorities_nonvacuous :
     ¬ MeetsBound FpEqExample.eqSys 0 1 :=
   ⟨FpEqExample.eqSys_setting, rfl, FpEqExample.eqSys_result, FpEqExample.eqSys_meets,
     FpEqExample.eqSys_attained.1⟩
+
+/-! ## Task-set level: hypotheses on the inputs only
+
+The settings above assume workload bounds (`w_tua`, `w_hep`).  Here they are DERIVED: `ts` is
+the task set (arrival model and cost model per task), `Compliant s ts` says that the releases
+of each task are admissible for its arrival model and that every run of `m` consecutive jobs
+of a task costs at most `cost_of_jobs(m)`; the analysis is called exactly as the crate's
+documentation prescribes — with the request bound of the task (`taskRB ts i`) and with the
+request bounds of ALL OTHER tasks of higher or equal priority (`hepOthers ts pr i`).  What
+remains are hypotheses on the schedule (legal for the policy) and on the placement of
+non-preemptive regions. -/
+
+theorem fully_preemptive_safe_task_set (s : Sys) (ts : List (Arr × Cost)) (pr : ℕ → ℕ) (i : ℕ)
+    (hi : i < ts.length)
+    (hwf : ∀ p ∈ ts, p.1.WF ∧ p.2.WF) (hex : ∀ x, x < ts.length → (taskRB ts x).Exact)
+    (hc : Compliant s ts) (hl : JlfpLegal s (hepFPe s pr))
+    (hnp : ∀ l x, ¬ s.np l x) (hpos : ∀ k, k < s.n → 1 ≤ s.cost k)
+    (limit R : ℕ) (hR : fpPreemptive (taskRB ts i) (hepOthers ts pr i) limit = .ok R) :
+    ∀ j, j < s.n → s.task j = i → MeetsBound s j R :=
+  fp_preemptive_sound_of_compliant s ts pr i hi hwf hex hc hl hnp hpos limit R hR
+
+theorem floating_nonpreemptive_safe_task_set (s : Sys) (ts : List (Arr × Cost)) (pr : ℕ → ℕ)
+    (i : ℕ) (hi : i < ts.length)
+    (hwf : ∀ p ∈ ts, p.1.WF ∧ p.2.WF) (hex : ∀ x, x < ts.length → (taskRB ts x).Exact)
+    (hc : Compliant s ts) (hl : JlfpLegal s (hepFPe s pr)) (B : ℕ)
+    (hblock : ∀ l, l < s.n → pr i < pr (s.task l) → ∀ x len,
+      (∀ k, k < len → s.np l (x + k)) → len ≤ B)
+    (hpos : ∀ k, k < s.n → 1 ≤ s.cost k)
+    (limit R : ℕ) (hR : fpFloating (taskRB ts i) B (hepOthers ts pr i) limit = .ok R) :
+    ∀ j, j < s.n → s.task j = i → MeetsBound s j R :=
+  fp_floating_sound_of_compliant s ts pr i hi hwf hex hc hl B hblock hpos limit R hR
+
+/-- the number of releases per window and `cost j ≤ C` are derived from compliance, not assumed -/
+theorem fully_nonpreemptive_safe_task_set (s : Sys) (ts : List (Arr × Cost)) (pr : ℕ → ℕ)
+    (i : ℕ) (hi : i < ts.length) (a : Arr) (C : ℕ) (hts : ts[i] = (a, .scalar C))
+    (hwf : ∀ p ∈ ts, p.1.WF ∧ p.2.WF) (hexa : a.Exact)
+    (hex : ∀ x, x < ts.length → pr x ≤ pr i → x ≠ i → (taskRB ts x).Exact)
+    (hc : Compliant s ts) (hl : JlfpLegal s (hepFPe s pr)) (B : ℕ)
+    (hblock : ∀ l, l < s.n → pr i < pr (s.task l) → ∀ x len,
+      (∀ k, k < len → s.np l (x + k)) → len ≤ B)
+    (hpos : ∀ k, k < s.n → 1 ≤ s.cost k)
+    (hown : ∀ j, j < s.n → s.task j = i → ∀ x, 1 ≤ x → x < s.cost j → s.np j x)
+    (limit R : ℕ) (hR : fpNonpreemptive a C B (hepOthers ts pr i) limit = .ok R) :
+    ∀ j, j < s.n → s.task j = i → MeetsBound s j R :=
+  fp_nonpreemptive_sound_of_compliant s ts pr i hi a C hts hwf hexa hex hc hl B hblock hpos hown
+    limit R hR
+
+theorem limited_preemptive_safe_task_set (s : Sys) (ts : List (Arr × Cost)) (pr : ℕ → ℕ)
+    (i : ℕ) (hi : i < ts.length) (a : Arr) (C last : ℕ) (hts : ts[i] = (a, .scalar C))
+    (hwf : ∀ p ∈ ts, p.1.WF ∧ p.2.WF) (hexa : a.Exact)
+    (hex : ∀ x, x < ts.length → pr x ≤ pr i → x ≠ i → (taskRB ts x).Exact)
+    (hc : Compliant s ts) (hl : JlfpLegal s (hepFPe s pr)) (B : ℕ)
+    (hblock : ∀ l, l < s.n → pr i < pr (s.task l) → ∀ x len,
+      (∀ k, k < len → s.np l (x + k)) → len ≤ B)
+    (hpos : ∀ k, k < s.n → 1 ≤ s.cost k)
+    (hlast1 : 1 ≤ last) (hlastC : last ≤ C)
+    (hown : ∀ j, j < s.n → s.task j = i →
+      ∀ x, max 1 (s.cost j - (last - 1)) ≤ x → x < s.cost j → s.np j x)
+    (limit R : ℕ) (hR : fpLimited a C last B (hepOthers ts pr i) limit = .ok R) :
+    ∀ j, j < s.n → s.task j = i → MeetsBound s j R :=
+  fp_limited_sound_of_compliant s ts pr i hi a C last hts hwf hexa hex hc hl B hblock hpos
+    hlast1 hlastC hown limit R hR
 
 end RTA.C01
